@@ -3482,6 +3482,11 @@ func (ts *TokenStore) authRenew(ctx context.Context, req *logical.Request, d *fr
 
 	req.Auth.Period = role.TokenPeriod
 	req.Auth.ExplicitMaxTTL = role.TokenExplicitMaxTTL
+	// An explicit max TTL given at creation time is stored on the token and
+	// must keep applying; as at creation, the lesser value is used.
+	if te.ExplicitMaxTTL > 0 && (req.Auth.ExplicitMaxTTL == 0 || te.ExplicitMaxTTL < req.Auth.ExplicitMaxTTL) {
+		req.Auth.ExplicitMaxTTL = te.ExplicitMaxTTL
+	}
 	return &logical.Response{Auth: req.Auth}, nil
 }
 
